@@ -6,9 +6,13 @@ case = {"n": N, "bases": [[..] per interface 1..N], "attrs": [[[name, kind], ..]
         "tags": [[[tag, value], ..] ..], "style": ["body"|"call", ..], "invs": [[id, ..] ..],
         "invkind": {"<id>": "func"|"unhash"|"eqhash"} (optional, default func),
         "failing": [id, ..], "ops": [...], "names": [...], "tagsU": [...]}
-ops: ["setbases", x, [b..]] | ["settag", x, tag, value] | ["get", x, name, how] | ["snap", x] (observe every
+ops: ["setbases", x, [b..]] | ["setbases", x, [b..], "fault"] (while a listener just registered with the public
+x.subscribe() raises from changed(); the caller catches the error and carries on: x and all its real
+dependents have been told before the listener, so the state is that of an ordinary rebasing) | ["settag", x, tag, value] | ["get", x, name, how] | ["snap", x] (observe every
 accessor on x now) | ["dictmut", x, "add"|"del"|"clear", name] (the CALLER changes the dict it passed to
 InterfaceClass(name, bases, d) for a "call"-style interface x; must have no effect).
+Optional "roottags": [[tag, value], ..]: tagged values set on zope.interface.Interface itself (node 0) before
+the case (the driver restores Interface afterwards).
 Optional "dictreuse": {"<i>": j}: interface i is created from the (cleared and refilled) dict object of j.
 Optional "pyname": [k per interface]: interface i (variable I<i>, identity = i) gets __name__ "I<k>";
 k != i makes it a TWIN of interface k: a different object that compares equal to it (same name and
@@ -58,6 +62,12 @@ class FalsyMethod(Method):
     c15_falsy = True
     def __bool__(self):
         return False
+class ListenerError(Exception):
+    pass
+class FailingListener:
+    """a dependent registered with the public subscribe() whose changed() raises"""
+    def changed(self, originally_changed):
+        raise ListenerError()
 I0 = Interface
 '''
 
@@ -129,6 +139,8 @@ def build_source(case, module='c15'):
     """interfaces are equal when (__name__, __module__) are equal, and the dependents of a base are
     kept in a weak dict keyed by that equality: every case needs its own module name"""
     src = PRELUDE % {"failing": sorted(case["failing"])}
+    for t, v in case.get("roottags") or []:
+        src += "I0.setTaggedValue(%r, %r)   # undone by the driver at the end of the case\n" % (tagname(t), v)
     for i in range(1, case["n"] + 1):
         src += iface_source(case, i, module)
     return src
@@ -139,7 +151,11 @@ GET_FORMS = ["I%d.get('a%d')", "I%d['a%d']", "('a%d' in I%d)", "I%d.queryDescrip
 
 def op_source(op):
     if op[0] == "setbases":
-        return "I%d.__bases__ = (%s)" % (op[1], "".join("I%d, " % b for b in op[2]))
+        assign = "I%d.__bases__ = (%s)" % (op[1], "".join("I%d, " % b for b in op[2]))
+        if len(op) > 3:
+            return ("_l = FailingListener(); I%d.subscribe(_l)\ntry:\n    %s\nexcept ListenerError:\n    pass\n"
+                    "I%d.unsubscribe(_l)" % (op[1], assign, op[1]))
+        return assign
     if op[0] == "settag":
         return "I%d.setTaggedValue(%r, %r)" % (op[1], tagname(op[2]), op[3])
     if op[0] == "snap":
